@@ -66,7 +66,7 @@ def mapping(chk, prog):
         return
     expect(chk, "VN", GE, lp["entry"][lc], C(1, "usize"), w, "the running chunk count starts at 1")
     src = lp["entry"][li]
-    chk.ob("VN", GE, src[0] == "call" and src[1].endswith("into_iter") and src[2] == (elevs,), "the cuts are walked in order", w, key="source")
+    chk.ob("VN", GE, src != elevs and iter_source(src) == elevs, "the cuts are walked in order", w, key="source")
     L, I = P("L%d" % lc), P("L%d" % li)
     nxt = ("call", "<core::slice::iter::Iter<'a, T> as core::iter::traits::iterator::Iterator>::next", (I,))
     cut = ("vfld", nxt, "Some", "0")
